@@ -147,7 +147,6 @@ PrivateHop(t, p, i) ==
 CapitalHop(t, p, i) ==
     LET n == NodeAt(t, SubSeq(p, 1, i))
     IN Class(p[i]) = "U" \/ (n[1] = "pkg" /\ i < Len(p))
-InPackage(t, p, i) == \E j \in 0..(i - 1) : NodeAt(t, SubSeq(p, 1, j))[1] = "pkg"
 
 (* ---- accesses from outside ---- *)
 ReadRoutes  == {"plus", "typeq", "uarg", "rhs", "rhsdef", "rhsset", "let", "star", "call"}
@@ -225,8 +224,9 @@ Apply(t, o) == IF o.op = "out" THEN ApplyOut(t, o)
 (* PART 2: the walkers of the code.  A walker returns                      *)
 (*   [k |-> "err"] | [k |-> "val", n |-> node, loc |-> path walked]        *)
 (*   | [k |-> "set", loc |-> path of the location assigned]                *)
-(* loc accumulates the names of the containers actually walked, so a       *)
-(* mis-directed walk is followed exactly.  D1: Stack.nestedPathGetSet      *)
+(* loc is the path (in the tree) of the container actually being walked,   *)
+(* so a mis-directed walk is followed exactly, also when it assigns.       *)
+(* D1: Stack.nestedPathGetSet                                              *)
 (* hands dotpaths[1:] instead of dotpaths[i+1:] to the hash walker; D2:    *)
 (* SexpHash.nestedPathGetSet hands dotpaths[1:] instead of dotpaths[i+1:]  *)
 (* to the package walker.  unicode.IsUpper decides (a non-letter is        *)
